@@ -314,6 +314,71 @@ func CheckC12(h *History, blk *BlockRecord) []Violation {
 			}
 		}
 	}
+	out = append(out, c12PositionLocks(h, blk)...)
+	return out
+}
+
+// c12PositionLocks: the committed LP shares of a leveragelp position sit at the position's own address
+// under the same one-hour lock. Only a liquidation (the begin-block sweep, MsgClosePositions) may take
+// them out early; the owner's own MsgClose may not. The locks are read from the ledger of the previous
+// block; a block counts against the owner when it holds a successful MsgClose of that position by its
+// owner and no liquidation request naming it.
+func c12PositionLocks(h *History, blk *BlockRecord) []Violation {
+	if h.Prev == nil {
+		return nil
+	}
+	var out []Violation
+	now := uint64(h.Cur.Time.Unix())
+	for _, pos := range h.Prev.LPPositions {
+		ownerClosed, liquidated := false, false
+		for _, tx := range blk.Txs {
+			if tx.Code != 0 {
+				continue
+			}
+			switch m := tx.Msg.(type) {
+			case *lptypes.MsgClose:
+				if m.Id == pos.Id && m.Creator == pos.Address {
+					ownerClosed = true
+				}
+			case *lptypes.MsgClosePositions:
+				for _, r := range append(append([]*lptypes.PositionRequest{}, m.Liquidate...), m.StopLoss...) {
+					if r != nil && r.Id == pos.Id && r.Address == pos.Address {
+						liquidated = true
+					}
+				}
+			}
+		}
+		if !ownerClosed || liquidated {
+			continue
+		}
+		pa := pos.GetPositionAddress().String()
+		d := ammtypes.GetPoolShareDenom(pos.AmmPoolId)
+		locked := sdkmath.ZeroInt()
+		for _, c := range h.Prev.Commitments {
+			if c.Creator != pa {
+				continue
+			}
+			for _, ct := range c.CommittedTokens {
+				if ct.Denom != d {
+					continue
+				}
+				for _, l := range ct.Lockups {
+					if l.UnlockTimestamp > now {
+						locked = locked.Add(l.Amount)
+					}
+				}
+			}
+		}
+		if !locked.IsPositive() {
+			continue
+		}
+		h.Labels["lp-owner-close-under-lock"]++
+		after := h.Cur.CommittedOf(pa, d)
+		if after.LT(locked) {
+			out = append(out, Violation{Sig: "C12/position-lock-bypassed", Detail: fmt.Sprintf("owner %s closed leveragelp position %d by MsgClose and took committed %s at the position address from %s to %s although %s is locked until after this block's time (height %d; %s)",
+				h.W.nameOf(pos.Address), pos.Id, d, h.Prev.CommittedOf(pa, d), after, locked, h.Cur.Height, blockSummary(blk))})
+		}
+	}
 	return out
 }
 
@@ -576,11 +641,62 @@ func CheckC15(h *History, blk *BlockRecord) []Violation {
 			if (delta.IsPositive() && !has("stablestake.MsgBond")) || (delta.IsNegative() && !has("stablestake.MsgUnbond")) {
 				out = append(out, Violation{Sig: "C15/share-supply-moved", Detail: fmt.Sprintf("%s supply %s without bond/unbond (height %d; %s)", d, delta, s.Height, blockSummary(blk))})
 			}
+			out = append(out, c15VaultShares(h, blk, before, after)...)
 		default:
 			out = append(out, Violation{Sig: "C15/external-supply-changed", Detail: fmt.Sprintf("denom %s supply %s -> %s (%s) (height %d; %s)", d, before, after, delta, s.Height, blockSummary(blk))})
 		}
 	}
 	return out
+}
+
+// c15VaultShares: vault shares are "minted only against deposits": what the block minted (supply change
+// plus the shares its unbonds burnt) is at most Σ deposits / redemption rate. The rate only moves up
+// inside a block (interest being booked), apart from one unit of rounding per operation, so the lower of
+// the two boundary rates bounds it; blocks in which the supply may have passed through dust (where one
+// unit of rounding is a visible fraction of the rate) are not judged.
+func c15VaultShares(h *History, blk *BlockRecord, supBefore, supAfter sdkmath.Int) []Violation {
+	bonded, burnt, n := sdkmath.ZeroInt(), sdkmath.ZeroInt(), int64(0)
+	for _, tx := range blk.Txs {
+		if tx.Code != 0 {
+			continue
+		}
+		switch m := tx.Msg.(type) {
+		case *sstypes.MsgBond:
+			bonded = bonded.Add(m.Amount)
+			n++
+		case *sstypes.MsgUnbond:
+			burnt = burnt.Add(m.Amount)
+			n++
+		}
+	}
+	low := sdkmath.MinInt(supBefore, supAfter).Sub(burnt)
+	if low.LT(sdkmath.NewInt(1_000_000)) {
+		h.Labels["c15-vault-dust-not-judged"]++
+		return nil
+	}
+	rate := func(s *Snapshot, sup sdkmath.Int) sdkmath.LegacyDec {
+		return s.SSParams.TotalValue.ToLegacyDec().QuoInt(sup)
+	}
+	r := sdkmath.LegacyMinDec(rate(h.Prev, supBefore), rate(h.Cur, supAfter))
+	if !r.IsPositive() {
+		return nil
+	}
+	// rounding: n+1 units on the rate's numerator relative to the lowest supply, plus one share per op
+	r = r.Sub(sdkmath.LegacyNewDec(n + 1).QuoInt(low))
+	if !r.IsPositive() {
+		return nil
+	}
+	minted := supAfter.Sub(supBefore).Add(burnt)
+	maxMint := bonded.ToLegacyDec().Quo(r).Ceil().TruncateInt().AddRaw(n + 1)
+	h.Labels["c15-vault-mint-judged"]++
+	if r.GT(sdkmath.LegacyMustNewDecFromStr("1.000001")) && bonded.IsPositive() {
+		h.Labels["c15-vault-mint-judged-rate>1"]++
+	}
+	if minted.GT(maxMint) {
+		return []Violation{{Sig: "C15/vault-shares-minted-beyond-deposits", Detail: fmt.Sprintf("stablestake shares minted in this block %s (supply %s -> %s, %s burnt by unbonds) exceed deposits %s / redemption rate %s = %s (height %d; %s)",
+			minted, supBefore, supAfter, burnt, bonded, r, maxMint, h.Cur.Height, blockSummary(blk))}}
+	}
+	return nil
 }
 
 // vestingReleaseBound: the most uelys this block's vesting releases can mint, from the
